@@ -30,6 +30,8 @@ type fileC15 struct {
 	// zero bytes of stream padding between them
 	Streams int `json:"streams,omitempty"`
 	Pad     int `json:"pad,omitempty"`
+	// Link (kind symlink): the member is a symbolic link to this other member
+	Link string `json:"link,omitempty"`
 }
 
 // flagC15 is one option in structured form.
@@ -188,6 +190,7 @@ type node struct {
 	comp   string // "" not compressed; "xz" / "lzma" valid compressed; "bad" undecodable
 	badFmt string // for bad: format its header announces ("" = none)
 	raw    []byte // exact bytes, nil for files written by gxz' compressor in this history
+	link   string // symbolic link to this name in the same directory
 	inner  *node  // what a valid compressed file decompresses to
 }
 
@@ -260,6 +263,26 @@ func drawC15(t *rapid.T) caseC15 {
 		}
 		c.Files = append(c.Files, f)
 	}
+	// a symbolic link to a regular member: refused without -f, followed with
+	// -f (the link is what gets removed, the output takes the target's mode)
+	haveLink := false
+	if rapid.IntRange(0, 5).Draw(t, "symlink") == 0 {
+		var regs []string
+		for _, f := range c.Files {
+			if f.Kind != "dir" {
+				regs = append(regs, f.Name)
+			}
+		}
+		if len(regs) > 0 {
+			to := rapid.SampledFrom(regs).Draw(t, "linkto")
+			name := "ln-" + strings.TrimLeft(to, "-")
+			if !used[name] {
+				used[name] = true
+				c.Files = append(c.Files, fileC15{Name: name, Kind: "symlink", Link: to, Mode: 0777})
+				haveLink = true
+			}
+		}
+	}
 	// the plain round trip of the statement, for every preset and both formats
 	if rapid.IntRange(0, 3).Draw(t, "roundtrip") == 0 {
 		var plain []string
@@ -317,6 +340,9 @@ func drawC15(t *rapid.T) caseC15 {
 				fl.Style = rapid.SampledFrom([]string{"short", "short", "long", "bundle"}).Draw(t, "style")
 			}
 			inv.Flags = append(inv.Flags, fl)
+		}
+		if haveLink && rapid.Bool().Draw(t, "linkforce") {
+			inv.Flags = append(inv.Flags, flagC15{F: "f", Style: "short"})
 		}
 		// operands: existing names, names the previous step may have created, a missing one
 		var pool []string
@@ -514,6 +540,14 @@ func buildDir(dir string, files []fileC15, gxz string, rec *ev.Rec) (map[string]
 			model[f.Name] = &node{dir: true}
 			continue
 		}
+		if f.Kind == "symlink" {
+			if err := os.Symlink(f.Link, p); err != nil {
+				rec.Incomplete("cannot create symbolic link: " + err.Error())
+				return nil, false
+			}
+			model[f.Name] = &node{link: f.Link}
+			continue
+		}
 		data := f.Data.Expand()
 		n := &node{mode: f.Mode}
 		var content []byte
@@ -641,6 +675,15 @@ func stepModel(model map[string]*node, inv invC15, stdin *node) expectC15 {
 		if n == nil || n.dir {
 			fail()
 			continue
+		}
+		if n.link != "" {
+			// not a regular file: refused unless -f, which follows the link
+			t := model[n.link]
+			if !o.force || t == nil || t.dir || t.link != "" {
+				fail()
+				continue
+			}
+			n = t
 		}
 		if !o.decompress {
 			format := o.format
@@ -820,6 +863,12 @@ func checkC15(c caseC15, rec *ev.Rec) *ev.Failure {
 			if want.dir {
 				continue
 			}
+			if want.link != "" {
+				if to, err := os.Readlink(filepath.Join(dir, name)); err != nil || to != want.link {
+					return ev.Fail(fmt.Sprintf("%s: %q is no longer the symbolic link to %q it was (%v)", desc, name, want.link, err), append(sig, "what", "link_changed")...)
+				}
+				continue
+			}
 			b, err := os.ReadFile(filepath.Join(dir, name))
 			if err != nil {
 				rec.Incomplete("cannot read back " + name + ": " + err.Error())
@@ -932,6 +981,10 @@ func flagSet(inv invC15) string {
 func describeDir(files []fileC15) string {
 	var s []string
 	for _, f := range files {
+		if f.Kind == "symlink" {
+			s = append(s, fmt.Sprintf("%s(symlink to %s)", f.Name, f.Link))
+			continue
+		}
 		s = append(s, fmt.Sprintf("%s(%s,%d bytes,%o)", f.Name, f.Kind, f.Data.Len(), f.Mode))
 	}
 	return strings.Join(s, " ")
@@ -939,7 +992,7 @@ func describeDir(files []fileC15) string {
 
 func TestC15(t *testing.T) {
 	rec := ev.New("C15", "exploration")
-	rec.Rule = "rapid draws a directory (1-5 members: plain files, files compressed by gxz and by xz-utils with varied options in both formats, bit-flipped / truncated / not-compressed files with a compressed suffix, a directory; names with spaces, known / unknown / tar suffixes, leading dashes; modes 0400..0755) and a history of 1-2 invocations of the gxz binary built from the tree (options from {-d,-z,-k,-c,-f,-q,-v,-F/--format xz|lzma|alone|auto,-0..-9} in short, long, bundled, '=' and separate-argument styles, placed before, between and after 1-4 operands incl. a missing one and the operand '-' (standard input fed with a member's bytes or nothing), optional '--'); an executable model of the documented semantics predicts per operand success or failure, the resulting tree (plaintext of every file), standard output and whether the exit status is non-zero; compressed outputs are decoded by the reference decoder and tested by xz-utils; output modes must not exceed the source's; no temporary file may remain; non-trivial = >= 2 options or >= 2 operands; distinct = hash of the case"
+	rec.Rule = "rapid draws a directory (1-5 members: plain files, files compressed by gxz and by xz-utils with varied options in both formats, bit-flipped / truncated / not-compressed files with a compressed suffix, a directory, a symbolic link to a member; names with spaces, known / unknown / tar suffixes, leading dashes; modes 0400..0755) and a history of 1-2 invocations of the gxz binary built from the tree (options from {-d,-z,-k,-c,-f,-q,-v,-F/--format xz|lzma|alone|auto,-0..-9} in short, long, bundled, '=' and separate-argument styles, placed before, between and after 1-4 operands incl. a missing one and the operand '-' (standard input fed with a member's bytes or nothing), optional '--'); an executable model of the documented semantics predicts per operand success or failure, the resulting tree (plaintext of every file), standard output and whether the exit status is non-zero; compressed outputs are decoded by the reference decoder and tested by xz-utils; output modes must not exceed the source's; no temporary file may remain; non-trivial = >= 2 options or >= 2 operands; distinct = hash of the case"
 	rec.Assumptions = []string{"names that gflag would take for the optional argument of a boolean/counter option (1, true, leading dash) are only used after '--'", "files compressed twice are modelled loosely (safety only)", "umask 0"}
 	drive(t, rec, drawC15, checkC15)
 }
